@@ -247,6 +247,7 @@ type ipSearch struct {
 	edgeOK  func(from *ssa.BasicBlock, succIdx int) bool
 	up      bool // continue in the callers after the start function returns
 	flat    bool // do not descend into callees (plain intraprocedural search)
+	stop    *ssa.Function // with up: this function's returns end the activity
 	seen    map[string]bool
 	found   ssa.Instruction
 	visited int
@@ -294,7 +295,7 @@ func (s *ipSearch) scanF(b *ssa.BasicBlock, from int, stack []*ssa.Call, facts *
 				nf := retFacts(call, in.(*ssa.Return), facts)
 				return s.scanF(call.Block(), instrIndex(call)+1, stack[:len(stack)-1], nf)
 			}
-			if s.up && !s.p.activityRoot(b.Parent()) {
+			if s.up && b.Parent() != s.stop && !s.p.activityRoot(b.Parent()) {
 				for _, cs := range s.p.syncCallers(b.Parent()) {
 					if s.p.loopRoots != nil && s.p.loopRoots[outermost(cs.Parent())] && s.p.rootsAreExits {
 						// returning into an activity root: the activity ends here
